@@ -221,7 +221,15 @@ func genReservedCases() {
 					continue
 				}
 				text := strings.Replace(p.tmpl, "%s", cw, 1)
-				item := Item{{[]byte(strings.ToLower(w)), S("x")}, {[]byte(w), S("x")}, {[]byte("zz"), S("y")}}
+				// the attribute named like the word has the shape the position walks into, so that nothing but the
+				// word itself can make the expression fail
+				wv := S("x")
+				if strings.Contains(p.tmpl, "%s.k") {
+					wv = AV{T: "M", M: []KV{{[]byte("k"), S("x")}}}
+				} else if strings.Contains(p.tmpl, "%s[0]") {
+					wv = AV{T: "L", L: []AV{S("x")}}
+				}
+				item := Item{{[]byte(strings.ToLower(w)), wv}, {[]byte(w), wv}, {[]byte(cw), wv}, {[]byte("zz"), S("y")}}
 				used := map[string]AV{}
 				for k, v := range vals {
 					if strings.Contains(text, k) {
